@@ -51,7 +51,7 @@ package provider
 //@ func NewPrioritizedProvider$1$1$1
 //@   prop C44
 //@   arith int-assumed
-//@   modifies all
+//@   modifies inSet(visited)
 //@   dyn callparam:stream noeffect
 //@   site[suppress_already_emitted] select-send:outCh : !inSet(visited, arg0)
 //@   site[record_what_was_sent] call:Set.Visit : markVisited && arg0 == visited
